@@ -28,6 +28,10 @@ import YarlProofs.C04Idn
   Continued in C04HeadlineMore.lean (theorems that need a module which imports this file): C04Bracket.lean imports this
   file, so the identity for BRACKETED hosts that are not IPv6 addresses (IPvFuture "[v1.a:b]", "[g::1]", "[a:b]";
   GAPS 1) is stated there as `C04_headline_…_bracketed_…`.
+  Continued further in C04HeadlineMore4.lean (C04Decide.lean, C04DecideConverse.lean, C04DecideDomain.lean,
+  C04DecideEmpty.lean, added after both files): the Boolean checker `canonicalB` on the raw string and its soundness
+  (GAPS 2), the converse inside `C04_Domain` and where it fails (GAPS 5), the empty host (GAPS 1) and the empty user
+  (GAPS 4).
 -/
 set_option linter.unusedVariables false
 namespace Yarl
@@ -345,12 +349,35 @@ GAPS:
     module reports, WITHOUT a ':' in the host the BRACKETS go with it: "https://[v1.a]:443/" ↦ "https://v1.a/"
     (C04_headline_bracketed_fails_for_default_port; both strings are outside "already canonical", no finding for C04).
     Not covered in this family: a space inside the brackets (outside `BracketText`, C03Headline.lean GAPS 2).
-    STILL no identity theorem for: the empty host with a port (":80"; `HostFix` asks a non-empty host).
+    WAS: STILL no identity theorem for: the empty host with a port (":80"; `HostFix` asks a non-empty host).
+    The EMPTY HOST — CLOSED by C04_identity_empty_host, C04_identity_empty_host_text, C04_empty_host_requires_host,
+    C04_requires_host_iff_default_port, C04_empty_host_examples (C04DecideEmpty.lean), see
+    C04_headline_empty_host_unchanged, C04_headline_empty_host_rejected_when_host_required,
+    C04_headline_empty_host_instances (C04HeadlineMore4.lean).  Proved: for an authority `[user[:password]@][:port]`
+    without a host (`authTextE`; ":80", "u@", "u:p@:80") that is not the empty text (hypothesis `hne`), `UserInfoOK`
+    userinfo, a port ≤ 65535, canonical path / query / fragment (`CompOK`) and a scheme that is empty or lower-case
+    scheme characters: if the scheme is NOT in `SCHEME_REQUIRES_HOST` (hypothesis `hreq`; such a scheme has no default
+    port) then str(URL(s)) == s with exactly the five components, `raw_host == ""`; if it IS (http, https, ws, wss,
+    ftp) then `URL(s)` raises ValueError, so the clause is vacuous.  NOT covered by a general theorem: the host-less
+    authority that is a ':' alone, which VANISHES ("//:/" ↦ "/", "x://:/" ↦ "x:/": instances in
+    C04_headline_empty_host_instances; compare "http://h:/", a ':' without port after a host, rejected by `canonicalB`
+    and not treated by any theorem).  These host-less fixed points are REJECTED by the checker of GAPS 2
+    (`canonicalB "x://:80/" = false`): the checker is sound, not complete, see GAPS 5 / 8.
  2. "For every string": C04_headline_every_canonical_string (new) is string-quantified but asks the caller for
     `splitUrl e.o s = .ok p` and `CanonString` of the PARSED parts; there is no decision procedure / sound Boolean
     checker for the whole of `CanonString` (C04_canonClauses covers the eight component clauses, not
     `CanonNetloc`), so instantiating it on a concrete string still needs a hand-made `authText` decomposition (for a
     bracketed non-IPv6 host: an `authTextB` decomposition and `CanonNetlocB`, C04HeadlineMore.lean — same remark).
+    CLOSED by C04_canonicalB_spec, C04_canonicalB_sound, C04_canonicalB_sound_parts, C04_canonicalB_rejects_changed
+    (C04Decide.lean, over netlocB_sound / hostKindB_sound / userInfoB_sound / portB_sound of Lemmas/CanonDecide.lean),
+    see C04_headline_checked_string_unchanged, C04_headline_checker_meaning,
+    C04_headline_checker_rejects_every_changed_string, C04_headline_checker_instances (C04HeadlineMore4.lean).
+    Proved: `canonicalB : Str → Bool` is a computable function of the raw text; for EVERY text, both backends, every
+    oracle assignment and with NO further hypothesis, `canonicalB s = true` implies that `URL(s)` succeeds,
+    str(URL(s)) == s and the URL has the five Appendix B components of `s`; it covers `CanonNetlocB` (plain and
+    bracketed non-IPv6 hosts), so no hand-made `authText` / `authTextB` decomposition is needed: a concrete string is
+    handled by `decide +kernel` (seventeen accepted / rejected instances in the headline theorem, sixty `example`s in
+    C04Decide.lean).  What "already canonical" MEANS is now the definition of `canonicalB`: see GAPS 7.
  3. Strings canonical in the words of the property but changed by str(URL(s)) — the property text has no exception
     for them.  ALL are now in KNOWN_FINDINGS.jsonl and each is a theorem here: empty path before '?'/'#' under an
     authority (F-C04-empty-path, C04_headline_fails_for_empty_path); authority-taking scheme without "//"
@@ -360,15 +387,81 @@ GAPS:
     C04_headline_fails_for_empty_authority; both recorded witnesses "x:///p" and "x://").  They remain GUARDS of the
     identity theorems (`h_nonempty`, `h_authority_scheme`, `Recomposable`), i.e. the sentence "for every string that
     is already canonical" is proved only outside these five classes (with item 4).
+    FURTHER (C04Decide.lean): the checker of GAPS 2 REJECTS a witness of each of the five classes
+    (C04_headline_checker_instances) and necessarily every string that is changed
+    (C04_headline_checker_rejects_every_changed_string); so the closure of GAPS 2 does not prove the sentence for these
+    classes either: it makes the exclusion part of the definition of `canonicalB` (clauses `Recomposable`,
+    `C04_canonClauses`, `userInfoB`).  A SIXTH class of the same kind is now a theorem: the empty userinfo "@host",
+    GAPS 4 / 9.
  4. Userinfo: `UserInfoOK` requires REQUOTER-canonical text, i.e. no literal ':' in the password — "u:p:w@h" is
     legal RFC 3986 userinfo but is rewritten (C04_headline_fails_for_colon_in_password; now KNOWN FINDING
     F-C04-colon-password) — and a NON-EMPTY user when a user is present: ":pw@h" evaluates to a fixed point and "@h"
     to "h", but no theorem covers the empty user.
+    The EMPTY USER — CLOSED by C04_identity_empty_user_password, C04_empty_user_dropped, C04_empty_user_examples
+    (C04DecideEmpty.lean), see C04_headline_empty_user_with_password_unchanged, C04_headline_fails_for_empty_user,
+    C04_headline_empty_user_instances (C04HeadlineMore4.lean).  Proved: ":password@host" (no user, a
+    REQUOTER-canonical password, also the empty one ":@h") is an instance of `UserInfoOK none (some w)` and is
+    unchanged, with `raw_user` None and `raw_password` the password (any `HostFix` host, `PortOK` port, `CompOK`
+    path / query / fragment); "@host" (the '@' alone) is NEVER unchanged: for every such host, port and components the
+    '@' is dropped and str(URL(s)) differs from s (a NEGATIVE result, see GAPS 9).  The first sentence of this item
+    (':' in the password, F-C04-colon-password) is unchanged.
  5. "neither over-encodes nor over-decodes" is proved as table identities (C04_policy, C04_policy_protected) and
     as the identity on canonical text; there is no CONVERSE at URL level ("if str(URL(s)) == s then s is canonical"),
     and no policy statement for the host or the scheme.
+    PARTLY CLOSED by C04_fixed_point_canonical, C04_canonicalB_complete, C04_canonicalB_iff,
+    C04_not_canonical_changed, C04_component_unchanged_canonical, C04_authority_unchanged_checked
+    (C04DecideConverse.lean, over Lemmas/CanonComplete.lean and Lemmas/CanonConverse.lean) and C04_domainB_sound,
+    C04_canonicalB_iff_of_domainB, C04_not_canonical_changed_of_domainB (C04DecideDomain.lean), see
+    C04_headline_fixed_point_is_canonical, C04_headline_canonical_iff_unchanged_in_domain,
+    C04_headline_canonical_iff_unchanged_decidable, C04_headline_domain_instances,
+    C04_headline_unchanged_component_is_canonical, C04_headline_unchanged_authority_is_canonical
+    (C04HeadlineMore4.lean).  Proved: UNDER THE HYPOTHESIS `C04_Domain e.o s p` (GAPS 8: `s` a Python string,
+    `split_url(s) = p`, authority empty or of a supported host kind in any spelling, host not an IPv4 literal with a
+    zone id) `canonicalB s = true` IFF str(URL(s)) == s, both backends, every oracle assignment — so inside the domain
+    every string that is not canonical (upper-case scheme or host, default port, dot segment under an authority,
+    superfluous or lower-case escape, …) IS changed or rejected, which is the missing policy statement for host and
+    scheme; at Prop level, under `PyStr s`, `split_url(s) = p` and `AuthInputB` only, a fixed point has `CanonStringB`
+    parts.  Per component WITHOUT any hypothesis on the authority: a path / query / fragment that `URL(s)` stores as
+    read is canonical for its requoter (and the path has no dot segment and is empty or rooted under an authority).
+    STILL OPEN / FALSE: outside the domain the converse is FALSE — C04_headline_converse_fails_outside_domain (cites
+    C04_converse_fails_for_ipv4_zone, …_for_empty_host, …_for_space_in_host): "http://1.2.3.4%ETH0/" and
+    "http://[1.2.3.4%A:b]/" are unchanged although the host is not lower-case (`_encode_host` copies the zone id of an
+    IPv4 literal verbatim), "x://:80/" and "//u@:80/p" (empty host, GAPS 1) and "http://a b/" (a space in the host,
+    C03Headline.lean GAPS 2) are unchanged and rejected by the checker.  Non-ASCII hosts (IDN) are outside `AuthInputB`, and every
+    non-ASCII authority (every input that reaches the NFKC screen) is outside `C04_domainB`: no converse for them;
+    the forward direction for A-label hosts stays C04_headline_idn_host_unchanged (GAPS 1).
  6. Only the auto-encoding constructor is covered (that is what C04 is about); `encoded=True` is trivially verbatim
     (C07_preencoded_verbatim) but `str` of such a URL may still drop a default port.
+ 7. NEW (trusted definition introduced by the closure of GAPS 2).  `canonicalB` (C04Decide.lean) with `netlocB`,
+    `hostKindB`, `v6B`, `userInfoB`, `portB` (Lemmas/CanonDecide.lean), `bracketTextB` (Lemmas/BrHost.lean family),
+    `C04_canonClauses`, `isCanon` and `Recomposable` (earlier files) is a hand-written READING of the property's phrase
+    "already canonical"; the soundness theorem says that what it accepts is unchanged, not that it accepts what the
+    property means.  It is deliberately NARROWER than the words of the property: it rejects the five KNOWN FINDING
+    classes (GAPS 3) and "@host" (GAPS 9); it rejects every non-ASCII host and every host-less authority; it asks for
+    a port written without leading zeros.  In one corner it is narrower than the library needs: fixed points it
+    rejects are listed in GAPS 5 (so it is NOT complete outside `C04_Domain`).  That it is not vacuous is shown by
+    instances only (C04_headline_checker_instances and the examples of C04Decide.lean); there is no theorem "every
+    string with property X is accepted" other than the completeness half of GAPS 5 (accepted iff unchanged, inside the
+    domain).  The split it uses is `Rfc.appendixB Gen.schemeChars` (C07Headline.lean GAPS 6: now the RFC's regular
+    expression up to the scheme test) and the C-backend tables (equal to the Python ones by `gen_tab_backend_eq`).
+ 8. NEW (hypothesis of the converse, GAPS 5).  `C04_Domain o s p` (C04DecideConverse.lean) =
+    `PyStr s` ∧ `splitUrl o s = .ok p` ∧ `AuthInputB o p.netloc` (C03Bracket.lean) ∧ `C04_NoIPv4Zone p.netloc`; its
+    Boolean form `C04_domainB s` (C04DecideDomain.lean) additionally asks for an ASCII authority that passes
+    `checkBrackets` and is only SOUND for `C04_Domain` (C04_domainB_sound), not equivalent to it.  Both are definitions
+    to be read; `AuthInputB` is the input-side host family of C03Bracket.lean (ASCII reg-name / IPv4 text in any letter
+    case, IPv6 literal in any spelling `ipaddress` accepts + zone, bracketed non-IPv6 text).  The corner
+    `C04_NoIPv4Zone` is needed only by the Boolean checker (it asks for a lower-case zone), not by the Prop-level
+    converse C04_headline_fixed_point_is_canonical.
+ 9. NEW (negative result, candidate finding).  "@host": a userinfo consisting of the '@' alone is legal RFC 3986
+    (`userinfo = *( unreserved / pct-encoded / sub-delims / ":" )`), the string "http://@h/" satisfies every condition
+    the property lists, and str(URL("http://@h/")) == "http://h/" — for EVERY host, port, path, query and fragment of
+    the canonical families (C04_headline_fails_for_empty_user, cites C04_empty_user_dropped, C04DecideEmpty.lean).
+    This is a sixth class of strings canonical by the letter that ARE changed, of the same kind as those of GAPS 3
+    (the URL value is the same, `raw_user` is None either way).  It is NOT in KNOWN_FINDINGS.jsonl at the time of this
+    refresh (the five C04 entries there are F-C04-empty-path, -single-slash, -empty-delims, -empty-authority,
+    -colon-password); the identity theorems exclude it through `UserInfoOK` (a user, if present, is non-empty) and the
+    checker through `userInfoB` / the literal comparison with `authText`.  The same remark applies to the host-less
+    authority ":" ("//:/" ↦ "/", GAPS 1), for which there are instances only.
 -/
 
 end Yarl
